@@ -8,9 +8,13 @@
 #include "llvm/IR/Operator.h"
 #include "llvm/IR/GetElementPtrTypeIterator.h"
 #include "llvm/IRReader/IRReader.h"
+#include "llvm/IR/Dominators.h"
+#include "llvm/Analysis/LoopInfo.h"
+#include "llvm/ADT/PostOrderIterator.h"
 #include "llvm/Support/SourceMgr.h"
 #include "llvm/Support/raw_ostream.h"
 #include <map>
+#include <functional>
 #include <set>
 #include <string>
 #include <sstream>
@@ -125,7 +129,8 @@ struct FnEmit {
         default: errs()<<"unsupported intrinsic "<<cf->getName()<<"\n"; exit(3); }
       return; }
     StringRef nm = cf? cf->getName() : "";
-    if(nm=="_Znwm"||nm=="_Znam"||nm=="malloc"){ os<<"  "<<lhs<<"(u8*)malloc("<<V(cb->getArgOperand(0))<<"); __CPROVER_assume("<<V(cb)<<"!=0);\n"; afterCall(cb); return; }
+    if(nm=="_Znwm"||nm=="_Znam"||nm=="malloc"){ // a request of non-constant size is served from a fixed 256-byte block (asserted to be enough): CBMC's heap model does not scale with symbolic object sizes
+      bool cst=isa<ConstantInt>(cb->getArgOperand(0)); os<<"  "<<lhs<<"(u8*)"<<(cst?"malloc(":"vp_malloc(")<<V(cb->getArgOperand(0))<<"); __CPROVER_assume("<<V(cb)<<"!=0);\n"; afterCall(cb); return; }
     if(nm=="_ZdlPv"||nm=="_ZdaPv"||nm=="free"||nm=="_ZdlPvm"){ os<<"  free("<<V(cb->getArgOperand(0))<<");\n"; afterCall(cb); return; }
     if(nm=="__cxa_allocate_exception"){ os<<"  "<<lhs<<"(u8*)malloc("<<V(cb->getArgOperand(0))<<"); __CPROVER_assume("<<V(cb)<<"!=0);\n"; return; }
     if(nm=="__cxa_throw"){ os<<"  __exc_obj="<<V(cb->getArgOperand(0))<<"; __exc_ti="<<V(cb->getArgOperand(1))<<"; __exc_pending=1;\n"; afterCall(cb); return; }
@@ -194,7 +199,18 @@ struct FnEmit {
     // name args
     unsigned i=0; for(auto &A: F.args()) names[&A]="a"+std::to_string(i++);
     FnEmit inner(F, bs); inner.names=names;
-    for(auto &B: F){ bs<<inner.BB(&B)<<": ;\n"; for(auto &I: B) inner.inst(I); }
+    // block order: reverse post-order with every natural loop contiguous and its header first, so that each backward goto of the generated C is
+    // exactly one loop back-edge and nested loops are textually nested (CBMC counts unwindings per backward goto)
+    { DominatorTree DT(const_cast<Function&>(F)); LoopInfo LI(DT);
+      std::vector<const BasicBlock*> rpo; { ReversePostOrderTraversal<const Function*> R(&F); for(auto*b: R) rpo.push_back(b); }
+      std::set<const BasicBlock*> done; std::vector<const BasicBlock*> out;
+      std::function<void(const Loop*)> emitLoop = [&](const Loop *L){
+        for(auto*b: rpo){ if(done.count(b)) continue; if(L && !L->contains(b)) continue;
+          const Loop *bl = LI.getLoopFor(b); const Loop *child = bl; while(child && child->getParentLoop()!=L) child = child->getParentLoop();
+          if(bl!=L && child){ emitLoop(child); continue; }
+          done.insert(b); out.push_back(b); } };
+      emitLoop(nullptr);
+      for(auto*b: out){ bs<<inner.BB(b)<<": ;\n"; for(auto &I: *b) inner.inst(I); } }
     bs.flush();
     os<<"static "<<fproto(F.getFunctionType(), fname(&F))<<" {\n";
     for(auto &kv: inner.names){ if(isa<Argument>(kv.first)) continue; Type*t=kv.first->getType(); if(t->isVoidTy()) continue; os<<"  "<<cty(t)<<" "<<kv.second<<"; "; if(isa<PHINode>(kv.first)) os<<cty(t)<<" "<<kv.second<<"_t; "; os<<"\n"; }
@@ -214,7 +230,7 @@ int main(int argc,char**argv){ SMDiagnostic E; auto Mod=parseIRFile(argv[1],E,Ct
   for(auto*f: order){ if(isStub(f)||f->isIntrinsic()) continue; FnEmit fe(*f, fs); fe.run(); }
   fs.flush();
   raw_ostream &o=outs();
-  o<<"#include <stdint.h>\n#include <string.h>\n#include <stdlib.h>\n#include <math.h>\ntypedef unsigned char u8;\nstatic u8* __exc_obj; static u8* __exc_ti; static int __exc_pending;\nint __exc_match(u8* thrown, u8* clause);\nvoid vp_assert(uint32_t c, uint32_t id);\n";
+  o<<"#include <stdint.h>\n#include <string.h>\n#include <stdlib.h>\n#include <math.h>\ntypedef unsigned char u8;\nstatic u8* __exc_obj; static u8* __exc_ti; static int __exc_pending;\nint __exc_match(u8* thrown, u8* clause);\nvoid vp_assert(uint32_t c, uint32_t id);\nvoid* vp_malloc(uint64_t n);\n";
   o<<structDefs;
   for(auto*g: greach){ uint64_t sz=DL->getTypeAllocSize(g->getValueType()); o<<"static u8 "<<gvname(g)<<"["<<(sz?sz:1)<<"] __attribute__((aligned(16)));\n"; }
   for(auto*f: order){ if(f->isIntrinsic()) continue; StringRef nm=f->getName(); if(nm=="_Znwm"||nm=="_ZdlPv"||nm=="__VERIFIER_assume"||nm=="vp_assert"||(nm.startswith("__cxa_")&&nm!="__cxa_pure_virtual")||nm=="_Znam"||nm=="_ZdaPv"||nm=="malloc"||nm=="free"||(nm.startswith("_ZSt")&&nm.contains("__throw_"))) continue; o<<(isStub(f)?"":"static ")<<fproto(f->getFunctionType(), fname(f))<<";\n"; }
